@@ -4,6 +4,7 @@ import (
 	"fmt"
 	"net/http"
 	"strconv"
+	"strings"
 
 	"github.com/zitadel/logging"
 
@@ -359,7 +360,7 @@ func checkCertificate(
 		for _, keyDesc := range metadata.SPSSODescriptor.KeyDescriptor {
 			for _, spX509Data := range keyDesc.KeyInfo.X509Data {
 				for _, reqX509Data := range request.KeyInfo.X509Data {
-					if spX509Data.X509Certificate == reqX509Data.X509Certificate {
+					if normalizeCertificate(spX509Data.X509Certificate) == normalizeCertificate(reqX509Data.X509Certificate) {
 						return nil
 					}
 				}
@@ -368,6 +369,11 @@ func checkCertificate(
 
 		return fmt.Errorf("unknown certificate used to sign request")
 	}
+}
+
+// normalizeCertificate removes the whitespace base64 text may legally contain (line wrapping, indentation)
+func normalizeCertificate(cert string) string {
+	return strings.Join(strings.Fields(cert), "")
 }
 
 func GetAcsUrlAndBindingForResponse(
